@@ -332,14 +332,14 @@ def small_kernels(rep):
 
 def explore_nopanic(item):
     """no panic path in the real Inflection methods / raw_name_to_ts_field for any string in the bound"""
-    what, rule, n = item
+    what, rule, n, nonascii = item
     chars = [z3.BitVec(f'c{i}', CH) for i in range(n)]
     ex = Explorer(time_budget=G.get('time_budget'))
     if what == 'rawname':
         for c in chars:
-            ex.solver.add(z3.Or([c == z3.BitVecVal(ord(x), CH) for x in 'aA_$0- "\\\n'] + [c == z3.BitVecVal(s, CH) for s in U.TABLE]))
+            ex.solver.add(z3.Or([c == z3.BitVecVal(ord(x), CH) for x in 'aA_$0- "\\\n'] + ([c == z3.BitVecVal(s, CH) for s in U.TABLE] if nonascii else [])))
     else:
-        ex.solver.add(*c09.ident_domain(chars, True))
+        ex.solver.add(*c09.ident_domain(chars, nonascii))
     out = {'violations': [], 'samples': [], 'obligations': 0, 'discharged': 0, 'models': set(), 'inconclusive': []}
 
     def harness(ctx):
@@ -389,10 +389,12 @@ def main():
             part(rep)
         except Unsupported as e:
             rep.inconclusive.append(f'{part.__name__}: {e}')
-    N = 4 if quick else 6
-    NR = 3 if quick else 5
-    items = [(p, r, n) for p in ('field', 'variant') for r in c09.RULES for n in range(1, N + 1)]
-    items += [('rawname', '-', n) for n in range(0, NR + 1)]
+    N, NU = (4, 3) if quick else (6, 4)          # ASCII-only identifiers up to N, with the non-ASCII sample up to NU
+    NR, NRU = (3, 2) if quick else (5, 3)
+    items = [(p, r, n, False) for p in ('field', 'variant') for r in c09.RULES for n in range(1, N + 1)]
+    items += [(p, r, n, True) for p in ('field', 'variant') for r in c09.RULES for n in range(1, NU + 1)]
+    items += [('rawname', '-', n, False) for n in range(0, NR + 1)] + [('rawname', '-', n, True) for n in range(1, NRU + 1)]
+    items.sort(key=lambda it: -(it[2] + (2 if it[3] else 0)))
     results = par.pmap(explore_nopanic, items)
     cand = []
     for r in results:
@@ -411,8 +413,8 @@ def main():
             rep.inconclusive.append(f'engine panic path does not reproduce natively: {c}')
     rep.bounds = {'attribute_records': 'every Option / bool / Optional field of FieldAttr, StructAttr, EnumAttr, VariantAttr symbolic (all 2^n '
                                        'combinations, decided per path)', 'item_shapes': 'Fields kind symbolic; Field.ident / Variant.fields lazy',
-                  'identifiers': f'length 1..{N} over ASCII identifier chars + non-ASCII sample, 8 rules x field/variant',
-                  'raw names': f'length 0..{NR} over [a A _ $ 0 - space " \\ newline] + non-ASCII sample'}
+                  'identifiers': f'length 1..{N} over ASCII identifier chars, 1..{NU} with the non-ASCII sample, 8 rules x field/variant',
+                  'raw names': f'length 0..{NR} over [a A _ $ 0 - space " \\ newline], 1..{NRU} with the non-ASCII sample'}
     rep.outside += ['that an accepted expansion compiles (needs rustc in the loop)', 'panics inside syn / quote / proc_macro2',
                     'the type_def / format_field / format_variant code generators themselves (they build token streams)']
     rep.assumptions += ['the frozen incompatibility table lists exactly the conflicts diagnosed at the pinned commit (it is the specification '
